@@ -1,5 +1,8 @@
 import Spydr.Edif.Props.C03
 import Spydr.Edif.Props.C05
+import Spydr.Edif.Props.C03Closure
+import Spydr.Edif.Props.C03Fragment
+import Spydr.Edif.Props.C05Denote
 #print axioms Spydr.Edif.C05.readS_flatten
 #print axioms Spydr.Edif.C05.multibit_merge
 #print axioms Spydr.Edif.C05.multibit_merge_general
@@ -32,3 +35,16 @@ import Spydr.Edif.Props.C05
 #print axioms Spydr.Edif.C05.edif_reader_spec_scalars
 #print axioms Spydr.Edif.C05.edif_reader_spec_names
 #print axioms Spydr.Edif.C05.reader_loop_is_netStep
+#print axioms Spydr.Edif.C03.parse_compose_parse
+#print axioms Spydr.Edif.C03.reader_image_closed
+#print axioms Spydr.Edif.C03.reader_image_fixed_point
+#print axioms Spydr.Edif.C03.edifify_names_identity
+#print axioms Spydr.Edif.C03.edifify_order_identity
+#print axioms Spydr.Edif.C03.parse_compose_parse_accepted
+#print axioms Spydr.Edif.C03.reader_output_in_quantifier
+#print axioms Spydr.Edif.C05.edif_reader_spec
+#print axioms Spydr.Edif.C05.edif_reader_spec_closed_form
+#print axioms Spydr.Edif.C05.edif_reader_spec_of_resolution
+#print axioms Spydr.Edif.C05.wf_resolves
+#print axioms Spydr.Edif.C05.edif_reader_spec_contents
+#print axioms Spydr.Edif.C05.portRef_resolves
